@@ -233,7 +233,18 @@ def _gs_footprint(ctx, S, n, what):
                     hit = i
             if hit is None:
                 if not _true(a.cond):
-                    return UNDECIDED, "conditional access at %s%+d" % (T.show(a.base, 3, ctx.names), a.off), rule, None
+                    # a conditional access at a computed address (e.g. a contiguous fast path): it is fine iff its
+                    # condition implies that the address is one of the active lanes' element addresses - decided on
+                    # ROBDDs: is  cond and (address differs from every allowed address)  satisfiable?
+                    v_, w_ = _cond_addr_ok(ctx, a, m, es)
+                    if v_ == "ok":
+                        cnt += 1
+                        continue
+                    if v_ == "bad":
+                        return REFUTED, ("%s %d byte(s) at %s%+d under a condition that does not confine the address to the "
+                                         "elements of the %d active lane(s)" % ("reads" if a.kind == "r" else "writes", a.size,
+                                                                               T.show(a.base, 3, ctx.names), a.off, m)), rule, w_
+                    return UNDECIDED, "conditional access at %s%+d (%s)" % (T.show(a.base, 3, ctx.names), a.off, w_), rule, None
                 return REFUTED, "%s %d byte(s) at %s%+d, not an element addressed by a lane index" % (
                     "reads" if a.kind == "r" else "writes", a.size, T.show(a.base, 4, ctx.names), a.off), rule, {
                         "n": n, "note": "e.g. a negative 32-bit index if the widening is a zero extension"}
@@ -248,6 +259,46 @@ def _gs_footprint(ctx, S, n, what):
                 "reads" if a.kind == "r" else "writes", lane, m), rule, {
                     "n": n, "inactive_lane": lane, "note": "put a wild index in that lane"}
     return HOLDS, "%d element access(es), all for active lanes" % cnt, rule, None
+
+
+def _cond_addr_ok(ctx, a, m, es):
+    """('ok', None) | ('bad', witness) | (None, reason) for one conditional access of a gather / scatter"""
+    import bdd
+    import ops
+    vt = ctx.vt
+    addr = T.add(a.base, T.const(64, a.off & ((1 << 64) - 1)))
+    size = a.size or es
+    lane_addr = [T.add(ctx.args["p"], T.mul(ops.idx_lane(ctx, i), T.const(64, vt.eb // 8))) for i in range(m)]
+    # an access of k elements is judged element by element (a contiguous fast path for consecutive indices)
+    chunks = [(j * es, es) for j in range(size // es)] if size >= es and size % es == 0 else [(0, size)]
+    v, info, q = "UNSAT", None, None
+    for coff, csz in chunks:
+        ca = T.add(addr, T.const(64, coff))
+        neq_all = T.const(1, 1)
+        for li in lane_addr:
+            inside = T.const(1, 0)
+            for d in range(0, es - csz + 1):
+                inside = T.or_(inside, T.icmp("eq", ca, T.add(li, T.const(64, d))))
+            neq_all = T.and_(neq_all, T.not_(inside))
+        q = T.and_(a.cond, neq_all)
+        try:
+            v, info = bdd.satisfy(q, ctx.argspecs, max_nodes=3000000)
+        except T.TooBig:
+            return None, "budget"
+        if v != "UNSAT":
+            break
+    if v == "UNSAT":
+        return "ok", None
+    if v == "SAT":
+        args = [info.get(k, 0) for k in range(len(ctx.argspecs))]
+        try:
+            if T.ev(q, {"args": args}) == 1:
+                return "bad", {"args": {ctx.names[k]: hex(x) for k, x in enumerate(args) if k < len(ctx.names)},
+                               "note": "on this input the condition holds and the access is at none of the active lanes' elements"}
+        except T.Uneval:
+            pass
+        return None, "BDD witness not confirmed by the evaluator"
+    return None, info
 
 
 def judge_footprint_gather(n):
